@@ -1,0 +1,28 @@
+//! Verification hook points (cargo feature `verif-hooks`, off by default).
+//!
+//! [`point`] is called between the accesses to shared memory of the shutdown manager, the accept
+//! future, the accept loop and the connection tasks. Without an installed hook it does nothing.
+//! A verification harness installs a hook with [`set_hook`]; the hook may block the calling
+//! thread or task (rendez-vous with a schedule controller) or only log `(point, value)`.
+use std::sync::{Arc, RwLock};
+
+/// What a harness installs: called with the name of the point and one observed value.
+pub type Hook = Arc<dyn Fn(&'static str, i64) + Send + Sync>;
+
+static HOOK: RwLock<Option<Hook>> = RwLock::new(None);
+
+/// Installs (`Some`) or removes (`None`) the process-wide hook.
+pub fn set_hook(hook: Option<Hook>) {
+    *HOOK.write().unwrap_or_else(std::sync::PoisonError::into_inner) = hook;
+}
+/// A hook point. `value` is what the code has just read or is about to use.
+#[inline]
+pub fn point(name: &'static str, value: i64) {
+    let hook = HOOK
+        .read()
+        .unwrap_or_else(std::sync::PoisonError::into_inner)
+        .clone();
+    if let Some(hook) = hook {
+        hook(name, value);
+    }
+}
